@@ -107,9 +107,14 @@ def remove_widow_latents(
     :param graph: A latent variable DAG
     :param tag: The tag for which variables are latent
     :returns: The graph, modified in place
+
+    Removing a widow can leave a latent parent of it without children,
+    so the removal is repeated until no widow is left.
     """
-    remove = set(iter_widow_latents(graph, tag=tag))
-    graph.remove_nodes_from(remove)
+    remove: set[Variable] = set()
+    while widows := set(iter_widow_latents(graph, tag=tag)):
+        graph.remove_nodes_from(widows)
+        remove.update(widows)
     return graph, remove
 
 
